@@ -81,7 +81,11 @@ fn mode(m: u8) -> DuplicateElemination {
 
 pub fn c18_check(c: &NgCase, st: &mut Stats) -> CheckResult {
     let n = c.n as usize;
-    let mut store = NoGoodStore::new(n as u32);
+    let mut store = if c.queries.len() % 2 == 0 {
+        NoGoodStore::new(n as u32)
+    } else {
+        NoGoodStore::try_new(n).ok_or("NoGoodStore::try_new refused a small size")?
+    };
     let mut added: Vec<Partial> = Vec::new();
     let mut modes_used = std::collections::BTreeSet::new();
     let mut cur_mode = 1u8; // Equiv is the default
